@@ -1,6 +1,6 @@
 (* C01 — a session is issued only against a valid credential of that user. *)
 From AB Require Import World.Step Proofs.EvLogic Proofs.Neutral Proofs.HandlerEvents Proofs.ServeEvents Proofs.StepUid
-  Proofs.MonadInv Proofs.Guards.
+  Proofs.MonadInv Proofs.Guards Proofs.Guards2.
 
 (* Every request whose route/method cannot log anybody in — unknown routes, wrong methods,
    malformed bodies on them, every GET page, every 2FA-settings, OTP-management, confirm,
@@ -41,3 +41,15 @@ Print Assumptions c01_login_guard.
 Theorem c01_otp_guard : forall E h, guarded (g_otp E (h_st h)) (otp_login_post E) h.
 Proof. exact otp_login_post_guard. Qed.
 Print Assumptions c01_otp_guard.
+
+(* /register: the session is written for the submitted pid only when storage did not hold that
+   pid before this request and the submitted values passed the policy *)
+Theorem c01_register_guard : forall E h, guarded (g_register E (h_st h)) (register_post E) h.
+Proof. exact register_post_guard. Qed.
+Print Assumptions c01_register_guard.
+
+(* remember cookie: the session is written for the pid parsed from the cookie only when the
+   hash of the decoded cookie was among THAT pid's stored tokens *)
+Theorem c01_remember_guard : forall E h, guarded (g_remember E (h_st h)) (remember_authenticate E) h.
+Proof. exact remember_authenticate_guard. Qed.
+Print Assumptions c01_remember_guard.
